@@ -50,6 +50,8 @@ TENCC = {"f32": ("f32", "x{0}"), "f64": ("f64", "x{0}"), "opt_f32": ("opt(f32)",
 
 def model_op(op, alloc, half):
     w = op.split(" ")
+    if w[0] == "reuse":
+        return "nop"
     if w[0] == "tencc":
         d, f = TENCC[w[1]]
         if w[2] == "N":
@@ -174,6 +176,17 @@ def corpus(rng, tier):
         if v < 256: ops.append(f"tencc opt_u8 {v}")
     ops += ["tencc opt_u8 N", "tencc bool 0", "tencc bool 1", "tencc unit -", "tencc char 65", "tencc char 233", "tencc char 8364", "tencc char 1114111",
             "tencc str -", "tencc str 68656c6c6f", "tencc str " + "61" * 24, "tencc duration 0,0", "tencc duration 5,999999999", f"tencc duration {2**64 - 1},1"]
+    # ONE decoder through a script of skips / accessors / typed decodes at chosen positions, many of them failing inside nested containers
+    # (whatever a call leaves behind on the object, in whichever configuration, must not show in the next one)
+    nests = ["829f01ff02", "829f011cff02", "82bf0102ff03", "82bf01ff", "839f9f01ffff0203", "829f6161", "82a19f01ff02", "8301020304", "9f820102ff05",
+             "829f01ff1c", "829f7f6161ffff02", "829f5f4101ffff", "a29f01ff0203bf0405ff", "83010203", "0102", "6161", "f6", "18"]
+    tsteps = ["skip", "skip", "skip", "u8", "array", "map", "str", "datatype", "t:arr(3,u16)", "t:tup(u8,i16,bool)", "t:opt(u8)", "t:str", "t:unit"]
+    for _ in range(150 if q else 4000):
+        buf, starts = b"", []
+        for _ in range(rng.randint(2, 6)):
+            starts.append(len(buf)); buf += bytes.fromhex(rng.choice(nests))
+        steps = [f"{rng.choice(starts) if rng.random() < 0.9 else rng.randint(0, len(buf))}:{rng.choice(tsteps)}" for _ in range(rng.choice([5, 20, 60]))]
+        ops.append(f"reuse {buf.hex()} {';'.join(steps)}")
     # successive to_vec calls on one thread (alloc and std builds): a result must not depend on the calls before it
     for _ in range(200 if q else 3000):
         calls = [rng.choice(["f", "f", f"u8:{rng.choice([0, 5, 24, 255])}", "str:" + gen.hexb(bytes(rng.randint(0x61, 0x7a) for _ in range(rng.choice([0, 1, 5, 24, 300]))))])
@@ -349,6 +362,9 @@ def streams(rng, tier):
             if impl == model:
                 return "ok"
             w = op.split(" ")
+            if w[0] == "reuse":
+                # every step answered as on a fresh decoder (what a fresh decoder answers is what the `dec` ops compare with the model)
+                return "ok" if impl == f"{len(w[2].split(';'))} -" else "violation"
             # documented difference: without alloc, skip() may refuse an indefinite array/map nested in a definite one
             # (C06.noalloc_lockstep: the no-alloc skip equals the alloc skip or answers `err message`).  Typed decodes use
             # skip() for ignored items; the model of typed decoding is the alloc one, so this answer is accepted there
